@@ -307,6 +307,21 @@ pub fn facts(entry: &str, ub: bool, root: &Path, main_rel: &str, incdirs: &[Stri
     for l in out {
         writeln!(w, "{l}").unwrap();
     }
+    // names of the files the multi-file backends would write (the real generators)
+    use idlc_codegen::Generator as _;
+    let names = |d: idlc_codegen::Descriptor| {
+        let mut v: Vec<String> = d.iter().map(|(p, _)| p.display().to_string()).collect();
+        v.sort();
+        v.join(" ")
+    };
+    match quiet(|| idlc_codegen_rust::Generator::generate(&mir)) {
+        Ok(d) => writeln!(w, "files rust {}", names(d)).unwrap(),
+        Err(()) => writeln!(w, "files rust !panic").unwrap(),
+    }
+    match quiet(|| idlc_codegen_java::Generator::generate(&mir)) {
+        Ok(d) => writeln!(w, "files java {}", names(d)).unwrap(),
+        Err(()) => writeln!(w, "files java !panic").unwrap(),
+    }
 }
 
 /// result of the real library entry point (lib.rs `Language::generate`)
